@@ -1,7 +1,16 @@
+#[cfg(not(vls_verif))]
 pub mod chainpool;
+#[cfg(not(vls_verif))]
 pub mod chainutil;
 pub mod engine;
 pub mod world;
+// Under --cfg vls_verif (C20 only) vls-core's sync primitives are shuttle's: only the C20 module
+// is compiled then, every other check is built without the hook.
+#[cfg(vls_verif)]
+pub mod props {
+    pub mod c20;
+}
+#[cfg(not(vls_verif))]
 pub mod props {
     pub mod c03;
     pub mod c04;
